@@ -89,14 +89,14 @@ Failed(e) ==
          \cup {c \in {"C15.operators"} :
                  [lt |-> e.res.lt, le |-> e.res.le, gt |-> e.res.gt,
                   ge |-> e.res.ge, eq |-> e.res.eq] # OpsOfCmp(e.res.cmp)}
-         \cup {c \in {"C15.eq_consistent"} : e.res.eq # IvEq(e.a, e.b)}
+         \cup {c \in {"C15.eq_consistent"} : e.res.eq # IvEq(e.a, e.b) \/ e.res.ne # ~IvEq(e.a, e.b)}    \* == and != (both are overridable)
     [] e.op = "iv.cmp" ->
          LET c0 == CmpDef(e.a, e.b, W) IN
          {c \in {"C15.partial_cmp"} : e.res.cmp # c0}
          \cup {c \in {"C15.operators"} :
                  [lt |-> e.res.lt, le |-> e.res.le, gt |-> e.res.gt,
                   ge |-> e.res.ge, eq |-> e.res.eq] # OpsOfCmp(e.res.cmp)}
-         \cup {c \in {"C15.eq_consistent"} : e.res.eq # IvEq(e.a, e.b)}
+         \cup {c \in {"C15.eq_consistent"} : e.res.eq # IvEq(e.a, e.b) \/ e.res.ne # ~IvEq(e.a, e.b)}    \* == and != (both are overridable)
     [] e.op = "iv.make" ->
          LET s == SpecMake(e.path, e.haslo, e.lo, e.hashi, e.hi) IN
          {c \in {"C14.make_outcome"} :
